@@ -18,7 +18,7 @@ from pipelines import pipeline, spec_must_hold, write_lines, cat_files, B1, B2
 
 CHECKS = {
  "C18": dict(
-  text="The registry of NodeActivators is specified as two finite maps built by the Register steps of the code; TLC checks that names and type codes stay one-to-one after every registration, that all 256 possible type codes and a set of unregistered names give an error unless registered, and that a scalar type is an error for the module lookup and vice versa; the exactly representable activations (both approximation sigmoids with their breakpoints, clipped linear, linear, absolute, step, sign, null) are specified in exact dyadic arithmetic and checked for range, monotonicity, continuity at the breakpoints and symmetry; the module reducers are specified as folds and checked against product / maximum / minimum. Every case is replayed on the real NodeActivators (by Go constant, by registered name, through network.ActivateNode / ActivateModule) and compared exactly. For all 20 scalar activations the real outputs on a grid of float64 inputs up to +-1e300 are validated by a TLC trace specification: finite, inside the documented range, bit-exact for the six bit-determined functions, inside the generated closed-form interval (2^-28 units, +-1 unit) for the other fourteen, and non-decreasing along the grid for the sigmoid family, tanh, linear, clipped linear and step.",
+  text="The registry of NodeActivators is specified as two finite maps built by the Register steps of the code; TLC checks that names and type codes stay one-to-one after every registration, that all 256 possible type codes and a set of unregistered names give an error unless registered, and that a scalar type is an error for the module lookup and vice versa; the exactly representable activations (both approximation sigmoids with their breakpoints, clipped linear, linear, absolute, step, sign, null) are specified in exact dyadic arithmetic and checked for range, monotonicity, continuity at the breakpoints and symmetry; the module reducers are specified as folds and checked against product / maximum / minimum; factories are specified as references to map cells (a registry is per factory): for each of 24 single extra registrations on a private factory TLC checks that every other factory still is the registry of NewNodeActivatorsFactory, and the replayer makes real private factories, registers with one of them and compares the default NodeActivators, a second private factory and a later one before/after on all type codes, names and probe values. Every case is replayed on the real NodeActivators (by Go constant, by registered name, through network.ActivateNode / ActivateModule) and compared exactly. For all 20 scalar activations the real outputs on a grid of float64 inputs up to +-1e300 are validated by a TLC trace specification: finite, inside the documented range, bit-exact for the six bit-determined functions, inside the generated closed-form interval (2^-28 units, +-1 unit) for the other fourteen, and non-decreasing along the grid for the sigmoid family, tanh, linear, clipped linear and step.",
   note="The approximation sigmoids are compared exactly only at inputs no finer than 1/4096 (a breakpoint displaced by less than that is seen only if it moves the value by more than 2^-28). Exhaustive within: every byte as type code, 39 names plus 6 derived spellings of each registered name; inputs k/64 plus b+-m/4096 (m<=16) around the breakpoints (quick) or k/4096 (thorough) for |x|<=8 plus +-2^j (j up to 996 and down to -1074); module vectors of length 1..4 over 5 (quick) / 8 (thorough, plus length 1..7 over 3) integers at 10 scalings (7 for the product) reaching 3e298. The transcendental forms are checked on a grid (about 5 000 / 46 000 float64 inputs incl. seeded random ones, neighbours of every breakpoint and saturation threshold, +-10^k and +-2^j up to 1e300), not on the real line; monotonicity of exp/tanh/division-based forms is judged on 2^-28 fixed-point values with one unit of slack. -0.0 is excluded. Trusted: TLC, mpmath, the float64 -> bit-chunk / fixed-point projection of the harness. A registration unknown to the specification is reported as exit 2 (the table must be extended), not as a violation.",
   technique=B2 + " + " + B1, ref="DESIGN.md 7/C18"),
 }
@@ -157,10 +157,14 @@ def c18(ctx, replay):
     ctx.rule = ("B2 cases = states of MC_Activations: every byte value as type code; every registered name, 16 unregistered "
                 "names and (in the replayer) 6 derived spellings of each registered name; every exactly representable "
                 "activation at every input n/2^G with |x| <= 8 and at +-2^j; every module reducer on every integer vector of "
-                "length 1..4 over Vals at every scale 2^s. B1 rows = one grid input with the outputs of all 20 scalar "
+                "length 1..4 over Vals at every scale 2^s; every one of 24 extra registrations (new / existing scalar / existing "
+                "module type code x same / other existing / new name x scalar / module user function) applied to a private "
+                "factory made by NewNodeActivatorsFactory, with the default factory, a second private one and a later one "
+                "compared before/after on all 256 type codes and all names (run before and again after the other cases). B1 rows = one grid input with the outputs of all 20 scalar "
                 "activations. non-trivial = registry case asking for an unknown type or name; scalar case at zero, within "
                 "one grid step of a breakpoint (+-1, +-4), or with |x| >= 16 or |x| < 2^-60; module case with more than "
-                "one input that is all-negative or scaled by >= 2^62; (grid rows are counted as evaluations only)")
+                "one input that is all-negative or scaled by >= 2^62; factory case that overrides an existing type code or takes "
+                "an existing name; (grid rows are counted as evaluations only)")
     ctx.assumptions = ["inputs are finite float64 with |x| <= 1e300, -0.0 excluded (quantifier of C18, DESIGN.md section 9)",
                        "closed forms are read from the names and doc comments of activations.go: sine is sin(2x), tanh is "
                        "tanh(0.9x), ranges as commented (bipolar forms [-1,1], gaussian [0,1], clipped [-1,1]) or implied",
